@@ -70,6 +70,9 @@ class Spec:
         self.late_refs = []                 # (path, name, value) created after everything else (collisions)
         self.post = []                      # raw statements run last (not understood by PureModel)
         self.overrides = set()              # (path, cells): defined by assigning .formula of the derived cells
+        self.allow_none = []                # dotted paths below the model ('' = the model itself, 'A', 'A.c') whose
+        #                                     allow_none property is switched on once every cells exists
+        self.inputs = []                    # (path, cells, key tuple, value): values assigned by the user at build time
 
     def space(self, path, bases=(), params=None, late_bases=False):
         s = SpaceSpec(path, bases, params, late_bases)
@@ -94,7 +97,8 @@ class Spec:
         return (tuple(self.refs.items()),
                 tuple((p, tuple(s.bases), s.late_bases, s.params, tuple(s.refs.items()),
                        tuple((n, c[0], c[1]) for n, c in s.cells.items())) for p, s in self.spaces.items()),
-                tuple(self.late_refs), tuple(self.post), tuple(sorted(self.overrides)))
+                tuple(self.late_refs), tuple(self.post), tuple(sorted(self.overrides)),
+                tuple(self.allow_none), tuple(self.inputs))
 
     def children(self, path):
         pre = path + "." if path else ""
@@ -126,6 +130,8 @@ class Spec:
             for n, (src, cached) in s.cells.items():
                 if (p, n) in self.overrides:
                     L.append("m.%s.%s.formula = %r" % (p, n, src))
+        for t in self.allow_none:
+            L.append("m.%sallow_none = True" % (t + "." if t else ""))
         for n, v in self.refs.items():
             if isinstance(v, Obj):
                 L.append("m.%s = %r" % (n, v))
@@ -136,6 +142,8 @@ class Spec:
         for p, s in self.spaces.items():
             if s.bases and s.late_bases:
                 L.append("m.%s.add_bases(%s)" % (p, ", ".join("m." + b for b in s.bases)))
+        for p, c, key, v in self.inputs:
+            L.append(line(("input", p, c, tuple(key), v)))
         for p, n, v in self.late_refs:
             L.append("m.%s%s = %r" % (p + "." if p else "", n, v))
         L.extend(self.post)
@@ -413,6 +421,8 @@ class PureModel:
         self.spec = spec.copy() if copy else spec       # copy=False: read-only use (no edits)
         self.failed = set()                 # (path.cells, repr(key)) of formula runs that ended with an exception
         self.inputs = {}                    # (space path, cells name) -> {key: value}
+        for p, c, key, v in getattr(self.spec, "inputs", ()):
+            self.inputs.setdefault((p, c), {})[tuple(key)] = v
         self.ticks = []
         self.calls = []                     # (caller element | None, callee element) in call order
         self.attr_reads = []
